@@ -34,9 +34,13 @@ func (c *opCircuit) Define(api frontend.API) error {
 		probe(api, 1, api.Inverse(c.X))
 	case "tobinary":
 		var bits []frontend.Variable
-		if c.n == 0 {
+		switch {
+		case c.n == 0:
 			bits = api.ToBinary(c.X)
-		} else {
+		case c.n < 0:
+			// a width above the field's bit length (documented usage: the excess bits are zero)
+			bits = api.ToBinary(c.X, api.Compiler().FieldBitLen()-c.n)
+		default:
 			bits = api.ToBinary(c.X, c.n)
 		}
 		probe(api, 1, bits...)
@@ -103,6 +107,9 @@ func opSpec(op string, n int, q, x, y, z, t *big.Int) (bool, func(p map[int][]*b
 		nb := n
 		if nb == 0 {
 			nb = q.BitLen()
+		}
+		if nb < 0 {
+			nb = q.BitLen() - n
 		}
 		if x.BitLen() > nb {
 			return false, none
@@ -203,7 +210,7 @@ func opCase(op string, n int) *gcase {
 
 var c05Cases = []*gcase{
 	opCase("iszero", 0), opCase("div", 0), opCase("divunchecked", 0), opCase("inverse", 0),
-	opCase("tobinary", 0), opCase("tobinary", 4), opCase("tobinary", 1), opCase("tobinary", 5),
+	opCase("tobinary", 0), opCase("tobinary", 4), opCase("tobinary", 1), opCase("tobinary", 5), opCase("tobinary", -1), opCase("tobinary", -3),
 	opCase("xor", 0), opCase("select", 0), opCase("lookup2", 0), opCase("cmp", 0),
 	opCase("leq", 0), opCase("leqconst", 9), opCase("leqconst", 31), opCase("boolean", 0), opCase("crumb", 0), opCase("different", 0),
 }
